@@ -113,6 +113,14 @@ class MySQLQueryBuilder(QueryBuilder):
         self._for_update_nowait = nowait
         self._for_update_of = list(dict.fromkeys(of))
 
+    def replace_table(self, current_table: Optional[Table], new_table: Optional[Table]) -> "MySQLQueryBuilder":
+        query = super().replace_table(current_table, new_table)
+        query._duplicate_updates = [
+            (field.replace_table(current_table, new_table), value.replace_table(current_table, new_table))
+            for field, value in query._duplicate_updates
+        ]
+        return query
+
     @builder
     def on_duplicate_key_update(self, field: Union[Field, str], value: Any) -> "MySQLQueryBuilder":
         if self._ignore_duplicates:
